@@ -7,9 +7,9 @@ import (
 // CtrlDep holds immediate control dependence: for each block, the set of
 // (If block, successor index) edges it is directly control dependent on.
 type CtrlDep struct {
-	fn   *ssa.Function
+	fn    *ssa.Function
 	ipdom []int // immediate post-dominator (block index), -1 = virtual exit
-	deps map[int][]Edge
+	deps  map[int][]Edge
 }
 
 // ControlDeps computes post-dominators (iteratively, on the reverse CFG with a
